@@ -17,7 +17,8 @@ def design(ctx):
     if thorough:
         vlib.tlc_design(ctx, "Lookup", "MC_Lookup_Node5.cfg", timeout=3000)
     for cfg, inv in (("MC_Lookup_DevAskTwice.cfg", "AskedOnce"), ("MC_Lookup_DevSelf.cfg", "NeverSelf"),
-                     ("MC_Lookup_DevAlpha.cfg", "AlphaBound"), ("MC_Lookup_DevSeen.cfg", "Distinct")):
+                     ("MC_Lookup_DevAlpha.cfg", "AlphaBound"), ("MC_Lookup_DevSeen.cfg", "Distinct"),
+                     ("MC_Lookup_DevDrain.cfg", "Temporal property Terminates was violated.")):
         vlib.tlc_design(ctx, "Lookup", cfg, timeout=300, expect_violation=inv)
 
 
@@ -76,7 +77,7 @@ def run(ctx):
     events = vlib.read_ndjson(out)
     # coverage accounting
     stats = {"scenarios": 0, "generated_replayed": 0, "queries": 0, "max_inflight": 0, "cancelled": 0, "content_found": 0,
-             "content_notfound": 0, "results16": 0, "max_peers": 0, "empty_table": 0}
+             "content_notfound": 0, "results16": 0, "max_peers": 0, "empty_table": 0, "bursts": 0}
     running = set()
     cur = None
     for e in events:
@@ -102,6 +103,7 @@ def run(ctx):
             stats["cancelled"] += 1
         elif ev == "lk.done":
             ctx.evaluations += 1
+            stats["bursts"] += e.get("bursts", 0)
             if e["kind"] == "content":
                 stats["content_found" if e["found"] else "content_notfound"] += 1
             elif len(e["res"]) == 16:
@@ -129,14 +131,17 @@ def run(ctx):
              "first_event": e, "cases": cases}, tag=c)
     if not ctx.violations and not ctx.replay:
         if (stats["max_inflight"] < 3 or stats["cancelled"] == 0 or stats["content_found"] == 0 or stats["content_notfound"] == 0
-                or stats["results16"] == 0 or stats["generated_replayed"] == 0 or stats["empty_table"] == 0):
-            raise NoVerdict("vacuity guard: scenarios did not reach 3 concurrent queries / cancellation / both content outcomes / a full result / generated behaviours: %s" % stats)
+                or stats["results16"] == 0 or stats["generated_replayed"] == 0 or stats["empty_table"] == 0 or stats["bursts"] < 10):
+            raise NoVerdict("vacuity guard: scenarios did not reach 3 concurrent queries / cancellation / both content outcomes / a full result / generated behaviours / 10 simultaneous completions: %s" % stats)
     ctx.cov["rule"] = ("a scenario = one real lookup over a harness-owned peer graph (answers per peer, table seed, completion order, cancel point); "
                        "evaluations = queries issued by the real code + lookup results judged; distinct = distinct (graph shape, answer kinds, result)")
     ctx.assumptions += [
         "exhaustive TLC: 4-5 peers, alpha 2-3, result size 3, every answer subset and completion order, liveness under weak fairness",
         "the harness measures concurrency only after no new query has started for 1.5 ms (so a fourth simultaneous query cannot hide)",
         "answers contain no nil entries (production query functions never return them)",
+        "several replies waiting in the reply channel at once are provoked, not observed: the first released peer answers with 150 000 repeats of its own record "
+        "(merging them keeps the lookup goroutine busy) while the other outstanding queries complete 0.3 ms later, with the table loop stopped as at shutdown "
+        "(otherwise trackRequest spaces the replies); TLC-generated behaviours say which replies go together",
         "XOR-distance ranks come from go-ethereum's enode.DistCmp",
     ]
     return "model_checking"
